@@ -313,6 +313,17 @@ def zeros(
             f"Over sampling rate must be >= 1.1 but got {over_sample_rate}"
         )
 
+    if num_zeros == 0 or samples == 0:
+        # Nothing to draw from (or nothing requested)
+        if samples > 0:
+            logging.warning(
+                "Unable to get number of zero samples requested"
+                " Requested: %d but obtained: %d.",
+                samples,
+                0,
+            )
+        return np.empty((0, data.ndims), dtype=int)
+
     # Determine number of samples to generate
     # We need to oversample to account for potential duplicates and for
     # nonzeros we may pick
